@@ -12,6 +12,8 @@ Definition run (req : sexp) : sexp :=
   | Li [At "comp"; x] => run_comp x
   | Li [At "wfpil"; x] => run_wfpil x
   | Li [At "design"; x] => run_design x
+  | Li [At "contract"; x] => run_contract x
+  | Li [At "files"; x] => run_files x
   | Li [At "C08"; x] => run_C08 x
   | _ => bad_request
   end.
